@@ -32,6 +32,7 @@ type VerifTcSinkT interface {
 	TcBegin(env *GlobalEnvironment)
 	TcStep(env *GlobalEnvironment)
 	TcEnd(env *GlobalEnvironment)
+	TcDone(env *GlobalEnvironment) // the worker ran to its last statement
 }
 
 var VerifTcSink VerifTcSinkT
@@ -84,6 +85,11 @@ func vhTcBegin(env *GlobalEnvironment) {
 func vhTcStep(env *GlobalEnvironment) {
 	if VerifTcSink != nil {
 		VerifTcSink.TcStep(env)
+	}
+}
+func vhTcDone(env *GlobalEnvironment) {
+	if VerifTcSink != nil {
+		VerifTcSink.TcDone(env)
 	}
 }
 func vhTcEnd(env *GlobalEnvironment) {
